@@ -169,6 +169,17 @@ TABLE = {
         "by this property).",
         "6/C19",
     ),
+    "C16": (
+        "exploration",
+        "exhaustive enumeration of scripted driver paths (all words of length 1..3 over a step/jump/Brownian alphabet) x drivers x coefficient functions x initial values x coupling levels through the real schemes; dense time mesh for the discount factors",
+        "For every scripted driver path the solution returned by the real MarkovChainSDE / CouplingSDE is compared step by "
+        "step with the explicit Euler recursion (fine and coarse components with their own drifts), with closed forms for "
+        "constant and diagonal coefficients; real driver paths under a scripted generator confirm the capture; df(0)=1, "
+        "positivity, monotonicity and continuity at every tenor on a 400-point mesh for both rate models.",
+        "Alphabet of 8 (27) path letters, words up to length 3; levels 0..2; the driver path is replaced at the seam where the "
+        "scheme obtains it.",
+        "6/C16",
+    ),
 }
 
 READY = []  # filled from checks/ below; a module must define PID
